@@ -26,23 +26,62 @@
 
     INTERFACE TO C04 / C05 / C06 (what the neighbours have to deliver to discharge the hypotheses
     for a real request; none of it is assumed silently, each is a boolean hypothesis above):
-      validate_ok_doc_ok (C04):  for the view [S] of an accepted schema and the abstraction [R] of
-        a parsed document, if ValidateDocument returns no error, then for every operation [o] of
-        [R] and every [E] that gives a boolean to every variable used in a directive of [o] or of
-        a fragment,   exists n, doc_ok S (doc_of R o) E (default_fuel (doc_of R o)) n = true.
-        Ingredients on C04's side: fields-on-correct-type + leaf-field-selections (every collected
-        field is defined on every possible object type: [sels_ok]), fragment-spread-type-existence
-        + fragments-on-composite-types ([conds_ok]: no type condition names a leaf or input
-        type), fragment-spreads-must-not-form-cycles + known-fragment-names (with
-        [C01_collect_fuel_sufficient] the fuel never runs out, so [s_collect] is never [None]),
-        directives-are-defined + argument rules + variables-are-defined (conditions are literals
-        or declared Boolean variables).  [n] only bounds the depth of the recursion over TYPES
-        (one step per level of field nesting after merging).
+      validate_ok_doc_ok (C04):  for the view [S] of an accepted schema ([schema_ok S]) and the
+        abstraction [R] of a parsed document, if [validate_model repaired pi S F D = Done []], then for
+        every operation [o] of [R] and coerced variables [vv] of it,
+          exists n, doc_ok S (doc_of R o vv) (env_of_vars vv) (default_fuel (doc_of R o vv)) n = true.
+        [doc_ok] is a conjunction; conjunct by conjunct, with the C04 theorem that is to discharge it
+        (Properties/C04.v; "own" = a lemma of this development, no validation fact needed):
+          (a) [conds_ok], type conditions: every inline fragment's and every fragment definition's
+              type condition names no scalar, enum or input type ([cond_ok])
+                <- valid_5_5_1 (5.5.1.2 type existence, 5.5.1.3 fragments on composite types):
+                   C04_validate_verdict_partial, second conjunct.
+          (b) [conds_ok], directives ([dirs_ok]): every @skip/@include condition is a boolean
+              literal or a variable whose coerced value is a boolean
+                <- valid_5_7 (directives defined, in a valid location, unique) and valid_5_6 (the
+                   literal of [if:] coerces to Boolean!): C04_validate_verdict_partial, first and
+                   fourth conjunct; for a variable: C04_variables_rule_iff (defined, allowed in a
+                   Boolean! position) plus C05 (CoerceVariableValues gives a Boolean! variable a
+                   boolean; a nullable Boolean variable with a default explicitly given null is
+                   the one case left out: then this conjunct is false and C01 says nothing).
+          (c) the operation's root type exists ([s_root_type S (op_kind D) <> None])
+                <- valid_root: C04_accepted_operations_hold, third conjunct.
+          (d) [sels_ok], collection: [s_collect] never runs out of fuel
+                <- own: C01_collect_fuel_sufficient (unconditional for [default_fuel]; unknown or
+                   cyclic fragment spreads are skipped by the visited set, so 5.5.2.1 / 5.5.2.2 are
+                   NOT needed here).
+          (e) [group_ok_with], every group is non-empty  <- own (groups come from [s_group]).
+          (f) [group_ok_with], the group's field is __typename, a meta-field on the query root, or
+              DEFINED on the object type at hand — for every object type a value at that position
+              can have ([s_possible]: the type itself, the implementations of an interface, the
+              members of a union)
+                <- fields_defined / valid_5_3_1: C04_accepted_fields_hold (fields are defined on
+                   the PARENT type of the selection set, incl. abstract parents) together with
+                   [schema_ok S] (every implementation has the interface's fields; a field
+                   selected directly on a union is only __typename); the step from "parent type"
+                   to "every possible object type" is the interface lemma's own work.
+          (g) [args_total]: coercing the first field node's arguments does not hit the
+              "unsupported ... type" panic of the coercion code
+                <- C05_request_no_panic for [env_closed (s_inputs S)] (part of [schema_ok]: every
+                   named input type is defined); valid_5_4 (C04_accepted_arguments_hold) and
+                   valid_5_6 are NOT needed for this conjunct — they make the coercion succeed,
+                   which C01 does not require (a failing coercion is a field error).
+          (h) [type_ok_with]: the field's type is an output type (scalar, enum, object, interface,
+              union; not an input object, not undefined)  <- [schema_ok S] (schema construction).
+          (i) [type_ok_with], recursion: for a composite field type the MERGED sub-selections of
+              the group's field nodes satisfy (d)-(i) for every possible object type; for a leaf
+              type nothing (5.3.3, leaf field selections, is not needed)
+                <- the same theorems one level down; [n] bounds this recursion over types:
+                   [doc_depth D + 1] levels suffice (own; today [n := default_fuel D] is evaluated
+                   per case, the bound itself is not yet a lemma).
+        Not needed from validation at all: 5.2.x beyond the root type, 5.3.2 (field merging: the
+        executor merges whatever it is given), 5.4 / 5.6 for field arguments, 5.5.2.x, 5.8 beyond
+        what (b) uses.
       coerce_ok_dirs_evaluable (C05): CoerceVariableValues succeeding on a validated operation
         gives every declared Boolean! variable (and every Boolean variable that has a value or a
         non-null default) a boolean; the one remaining case — a nullable variable with a default,
         explicitly given null — is the case [dirs_evaluable] excludes (see
-        [C01_collect_cache_transparent_refuted_unevaluable]).
+        [C01_collect_cache_transparent_refuted_before_fixd]).
       parse_pos_injective (C06_parse_pos_injective): distinct nodes of a parsed document have
         distinct positions: [doc_positions_okb]; schema.New's name check gives [type_names_okb].
 
@@ -120,22 +159,25 @@ Theorem C01_failure_nulls_visible : forall S D E fuel W p cands,
   end /\ Forall (fun e => exists r, e_path e = p ++ r) cands.
 Proof. exact failure_nulls_visible. Qed.
 
-(** stage 2: the memo cache of collectFields (keyed by object type name and the positions of the
-    selections) is transparent: with and without it the executor returns the same response, for
-    every document (typed or not) whose selection nodes have distinct positions. *)
+(** stage 2 / round 4: the memo cache of collectFields (keyed by object type name and the positions
+    of the selections) is transparent: with and without it the executor returns the same
+    response — data AND errors — for every document (typed or not, directives evaluable or not)
+    whose selection nodes have distinct positions.  Since fix-C01's "report each directive once
+    per operation" this no longer needs [dirs_evaluable]. *)
 Theorem C01_collect_cache_transparent : forall S D E fuel W,
-  type_names_okb S = true -> doc_positions_okb D = true -> dirs_evaluable D E = true ->
+  type_names_okb S = true -> doc_positions_okb D = true ->
   run fixed S D E fuel W = run fixed_nomemo S D E fuel W.
-Proof. exact (fun S D E fuel W Hn Hp Hev => collect_cache_transparent S D E fuel Hn Hp W Hev). Qed.
+Proof. exact (fun S D E fuel W Hn Hp => collect_cache_transparent S D E fuel Hn Hp W). Qed.
 
-(** ... and it is not when a condition cannot be evaluated: collectFields reports the directive's
-    error on a cache miss only ({ l { a @include(if: $s) } }, l a list of two objects, no value for
-    $s: one error with the cache, two without).  This is why [dirs_evaluable] is a hypothesis. *)
-Theorem C01_collect_cache_transparent_refuted_unevaluable :
+(** ... before that repair it was not: collectFields reported a directive whose condition cannot be
+    evaluated on every traversal, i.e. on cache misses only ({ l { a @include(if: $s) } }, l a list
+    of two objects, no value for $s: one error with the cache, two without; now one and one). *)
+Theorem C01_collect_cache_transparent_refuted_before_fixd :
   exists S D E fuel W,
     type_names_okb S = true /\ doc_positions_okb D = true /\ dirs_evaluable D E = false /\
-    exists d e, run fixed S D E fuel W = Done d [e] /\ run fixed_nomemo S D E fuel W = Done d [e; e].
-Proof. exact collect_cache_transparent_refuted_unevaluable. Qed.
+    exists d e, run before_fixd S D E fuel W = Done d [e] /\ run before_fixd_nomemo S D E fuel W = Done d [e; e] /\
+                run fixed S D E fuel W = Done d [e] /\ run fixed_nomemo S D E fuel W = Done d [e].
+Proof. exact collect_cache_transparent_refuted_before_fixd. Qed.
 
 (** stage B: GetOperation.  The executor's loop over the definitions selects exactly the operation
     the specification determines (no name: the only operation; a name: the only operation of
@@ -288,7 +330,7 @@ Proof. exact exec_data_finite_refuted_before_fix7. Qed.
 
 Print Assumptions C01_exec_total.
 Print Assumptions C01_exec_total_default_fuel.
-Print Assumptions C01_collect_cache_transparent_refuted_unevaluable.
+Print Assumptions C01_collect_cache_transparent_refuted_before_fixd.
 Print Assumptions C01_get_operation_refines_spec.
 Print Assumptions C01_run_request_selected.
 Print Assumptions C01_run_request_vars_refused.
